@@ -648,4 +648,216 @@ theorem compWeight_eq_compGet (comp : EqSolve.Comp α) (hnd : (comp.map Prod.fst
 
 end TotalsKin
 
+/-! ## Part 5: rescaled variables (pyodesys `ScaledSys`): `y_int = s·y`, `t_int = τ·t` -/
+section Scaled
+variable {σ : Type} [DecidableEq σ] {K : Type} [Field K]
+
+/-- overall order of a reaction: the sum of the active reactant coefficients -/
+def rxnOrder (r : Reaction σ K) : ℕ := (r.reac.map Prod.snd).sum
+
+/-- the reaction with the rate constant of the rescaled variables `y_int = s·y`, `t_int = τ·t`: `k_int = k·s^(1−n)/τ` -/
+def scaleRxn (s τ : K) (r : Reaction σ K) : Reaction σ K := { r with param := r.param * (s / s ^ rxnOrder r) / τ }
+
+omit [DecidableEq σ] in
+theorem prod_smul_pow (s : K) (c : σ → K) (reac : List (σ × ℕ)) :
+    (reac.map fun p => (s * c p.1) ^ p.2).prod = s ^ (reac.map Prod.snd).sum * (reac.map fun p => c p.1 ^ p.2).prod := by
+  induction reac with
+  | nil => simp
+  | cons p t ih =>
+    simp only [List.map_cons, List.prod_cons, List.sum_cons, pow_add]
+    rw [ih, mul_pow]
+    ring
+
+omit [DecidableEq σ] in
+theorem concProd_smul (s : K) (c : σ → K) (reac : List (σ × ℕ)) :
+    concProd (fun x => s * c x) reac = s ^ (reac.map Prod.snd).sum * concProd c reac :=
+  prod_smul_pow s c reac
+
+theorem contribution_scaled (s τ : K) (hs : s ≠ 0) (c : σ → K) (r : Reaction σ K) (x : σ) :
+    contribution (fun y => s * c y) (scaleRxn s τ r) x = s / τ * contribution c r x := by
+  rw [contribution_eq, contribution_eq]
+  have hn : netStoich (scaleRxn s τ r) x = netStoich r x := rfl
+  have hr : (scaleRxn s τ r).reac = r.reac := rfl
+  have hp : (scaleRxn s τ r).param = r.param * (s / s ^ rxnOrder r) / τ := rfl
+  rw [hn, hr, hp, concProd_smul]
+  have hpow : s ^ (r.reac.map Prod.snd).sum ≠ 0 := pow_ne_zero _ hs
+  unfold rxnOrder
+  field_simp
+
+theorem sysRates_scaled (s τ : K) (hs : s ≠ 0) (c : σ → K) (rs : List (Reaction σ K)) (keys? : Option (List σ)) (x : σ) :
+    valueAt (sysRates (fun y => s * c y) (rs.map (scaleRxn s τ)) keys? none) x =
+      s / τ * valueAt (sysRates c rs keys? none) x := by
+  simp only [sysRates]
+  rw [valueAt_sysRatesNoFeed, valueAt_sysRatesNoFeed, List.map_map, ← List.sum_map_mul_left]
+  congr 1
+  apply List.map_congr_left
+  intro r _
+  have hk : keysFor keys? (scaleRxn s τ r) = keysFor keys? r := by
+    cases keys? <;> rfl
+  simp only [Function.comp, hk, valueAt_rxnRate]
+  split_ifs
+  · exact contribution_scaled s τ hs c r x
+  · simp
+end Scaled
+
+section ScaledStep
+variable {α : Type} [Field α] [LinearOrder α] [IsStrictOrderedRing α]
+
+/-- `min_h = min(h)` of `max_euler_step_cb` before the cap (`none` = `inf`) -/
+def minEulerStep (y : List α) (ub : List (Option α)) (fvec : List α) : Except Err (Option α) :=
+  match stepBounds y ub 0 fvec with
+  | .error e => .error e
+  | .ok h =>
+    match minInf h with
+    | none => .error .valueError
+    | some m => .ok m
+
+theorem maxEulerStep_eq_cap (y : List α) (ub : List (Option α)) (f : List α) :
+    maxEulerStep y ub f = (minEulerStep y ub f).map capAtOne := by
+  unfold maxEulerStep minEulerStep
+  cases hb : stepBounds y ub 0 f with
+  | error e => simp [Except.map]
+  | ok h => cases hm : minInf h <;> simp [Except.map, hm]
+
+theorem stepBoundAt_scaled (s τ : α) (hs : 0 < s) (hτ : 0 < τ) (y : List α) (ub : List (Option α)) (idx : ℕ) (fc : α) :
+    stepBoundAt (y.map (s * ·)) (ub.map (Option.map (s * ·))) idx (s / τ * fc) =
+      (stepBoundAt y ub idx fc).map (Option.map (τ * ·)) := by
+  have hst : 0 < s / τ := div_pos hs hτ
+  unfold stepBoundAt
+  simp only [Nat.cast_zero, List.getElem?_map]
+  by_cases h0 : fc = 0
+  · subst h0; simp [Except.map]
+  · have h0' : s / τ * fc ≠ 0 := mul_ne_zero hst.ne' h0
+    rw [if_neg h0', if_neg h0]
+    by_cases hp : 0 < fc
+    · have hp' : 0 < s / τ * fc := mul_pos hst hp
+      rw [if_pos hp', if_pos hp]
+      cases hu : ub[idx]? with
+      | none => simp [Except.map]
+      | some u =>
+        cases hy : y[idx]? with
+        | none => simp [Except.map]
+        | some yi =>
+          cases u with
+          | none => simp [Except.map]
+          | some u =>
+            simp only [Option.map_some, Except.map]
+            congr 2
+            field_simp
+    · have hp' : ¬ 0 < s / τ * fc := by
+        have : fc < 0 := lt_of_le_of_ne (not_lt.mp hp) h0
+        exact not_lt.mpr (mul_nonpos_of_nonneg_of_nonpos hst.le this.le)
+      rw [if_neg hp', if_neg hp]
+      cases hy : y[idx]? with
+      | none => simp [Except.map]
+      | some yi =>
+        simp only [Option.map_some, Except.map]
+        congr 2
+        field_simp
+
+theorem stepBounds_scaled (s τ : α) (hs : 0 < s) (hτ : 0 < τ) (y : List α) (ub : List (Option α)) (fs : List α) (idx : ℕ) :
+    stepBounds (y.map (s * ·)) (ub.map (Option.map (s * ·))) idx (fs.map (s / τ * ·)) =
+      (stepBounds y ub idx fs).map (List.map (Option.map (τ * ·))) := by
+  induction fs generalizing idx with
+  | nil => rfl
+  | cons fc t ih =>
+    simp only [List.map_cons, stepBounds, stepBoundAt_scaled s τ hs hτ, ih]
+    cases hb : stepBoundAt y ub idx fc with
+    | error e => simp [Except.map]
+    | ok b =>
+      cases hbs : stepBounds y ub (idx + 1) t with
+      | error e => simp [Except.map]
+      | ok bs => simp [Except.map]
+
+theorem minInf2_scaled (τ : α) (hτ : 0 < τ) (a b : Option α) :
+    minInf2 (a.map (τ * ·)) (b.map (τ * ·)) = (minInf2 a b).map (τ * ·) := by
+  cases a <;> cases b <;> simp only [minInf2, Option.map_some, Option.map_none]
+  rename_i x y
+  by_cases h : y < x
+  · rw [if_pos h, if_pos (mul_lt_mul_of_pos_left h hτ)]; rfl
+  · rw [if_neg h, if_neg (fun h' => h (lt_of_mul_lt_mul_left h' hτ.le))]; rfl
+
+theorem minInf_scaled (τ : α) (hτ : 0 < τ) (bs : List (Option α)) :
+    minInf (bs.map (Option.map (τ * ·))) = (minInf bs).map (Option.map (τ * ·)) := by
+  cases bs with
+  | nil => rfl
+  | cons a t =>
+    simp only [List.map_cons, minInf, Option.map_some]
+    congr 1
+    induction t generalizing a with
+    | nil => rfl
+    | cons b t ih =>
+      simp only [List.map_cons, List.foldl_cons, minInf2_scaled τ hτ, ih]
+
+/-- the loop is homogeneous: in the variables `s·y`, `s·ub`, `(s/τ)·f` every step limit and their minimum are `τ` times as large -/
+theorem minEulerStep_scaled (s τ : α) (hs : 0 < s) (hτ : 0 < τ) (y : List α) (ub : List (Option α)) (f : List α) :
+    minEulerStep (y.map (s * ·)) (ub.map (Option.map (s * ·))) (f.map (s / τ * ·)) =
+      (minEulerStep y ub f).map (Option.map (τ * ·)) := by
+  unfold minEulerStep
+  rw [stepBounds_scaled s τ hs hτ]
+  cases hb : stepBounds y ub 0 f with
+  | error e => simp [Except.map]
+  | ok bs =>
+    simp only [Except.map, minInf_scaled τ hτ]
+    cases hm : minInf bs <;> simp [Except.map]
+end ScaledStep
+
+section ScaledFvec
+variable {α : Type} [Field α] [LinearOrder α] [IsStrictOrderedRing α] {σ : Type} [DecidableEq σ]
+
+theorem stateFn_scaled (s : α) (keys : List σ) (y : List α) (x : σ) :
+    stateFn keys (y.map (s * ·)) x = s * stateFn keys y x := by
+  unfold stateFn
+  cases indexOf? keys x with
+  | none => simp
+  | some i =>
+    simp only [List.getElem?_map]
+    cases y[i]? <;> simp
+
+theorem dget?_eq_valueAt (d : List (σ × α)) (x : σ) :
+    dget? d x = if x ∈ dkeys d then some (valueAt d x) else none := by
+  cases h : dget? d x with
+  | none => rw [if_neg (dget?_eq_none_iff.mp h)]
+  | some v =>
+    have hm : x ∈ dkeys d := by
+      by_contra hn
+      rw [dget?_eq_none_iff.mpr hn] at h
+      cases h
+    rw [if_pos hm]
+    simp [valueAt, dgetD, h]
+
+theorem mapM_map_of_pointwise {β γ : Type} (g g' : β → Except Err γ) (φ : γ → γ) (l : List β)
+    (h : ∀ x, g' x = (g x).map φ) : l.mapM g' = (l.mapM g).map (List.map φ) := by
+  induction l with
+  | nil => rfl
+  | cons a t ih =>
+    rw [List.mapM_cons, List.mapM_cons, h a, ih]
+    cases g a with
+    | error e => rfl
+    | ok v =>
+      cases t.mapM g with
+      | error e => rfl
+      | ok vs => rfl
+
+theorem fvec_scaled (s τ : α) (hs : s ≠ 0) (keys : List σ) (rs : List (Reaction σ α)) (y : List α) :
+    fvec keys (rs.map (scaleRxn s τ)) (y.map (s * ·)) = (fvec keys rs y).map (List.map (s / τ * ·)) := by
+  unfold fvec
+  have hfun : stateFn keys (y.map (s * ·)) = fun x => s * stateFn keys y x := funext (stateFn_scaled s keys y)
+  simp only [hfun]
+  apply mapM_map_of_pointwise
+  intro x
+  rw [dget?_eq_valueAt, dget?_eq_valueAt (sysRates (stateFn keys y) rs none none)]
+  have hmem : x ∈ dkeys (sysRates (fun x => s * stateFn keys y x) (rs.map (scaleRxn s τ)) none none) ↔
+      x ∈ dkeys (sysRates (stateFn keys y) rs none none) := by
+    simp only [sysRates, mem_dkeys_sysRatesNoFeed, List.mem_map]
+    constructor
+    · rintro ⟨r', ⟨r, hr, rfl⟩, hx⟩; exact ⟨r, hr, hx⟩
+    · rintro ⟨r, hr, hx⟩; exact ⟨scaleRxn s τ r, ⟨r, hr, rfl⟩, hx⟩
+  by_cases hx : x ∈ dkeys (sysRates (stateFn keys y) rs none none)
+  · rw [if_pos (hmem.mpr hx), if_pos hx, sysRates_scaled s τ hs]
+    rfl
+  · rw [if_neg (fun h => hx (hmem.mp h)), if_neg hx]
+    rfl
+end ScaledFvec
+
 end ChemModel.EulerStep
